@@ -1,6 +1,7 @@
 package csrf
 
 import (
+	"fmt"
 	"time"
 
 	"github.com/gofiber/fiber/v3"
@@ -81,20 +82,22 @@ func (m *sessionManager) setRaw(c fiber.Ctx, key string, raw []byte, exp time.Du
 }
 
 // delete token from session
-func (m *sessionManager) delRaw(c fiber.Ctx) {
+// An error means the token may still be in the session store.
+func (m *sessionManager) delRaw(c fiber.Ctx) error {
 	sess := session.FromContext(c)
 	if sess != nil {
 		sess.Delete(sessionKey)
-	} else {
-		// Try to get the session from the store
-		storeSess, err := m.session.Get(c)
-		if err != nil {
-			// Handle error
-			return
-		}
-		storeSess.Delete(sessionKey)
-		if err := storeSess.Save(); err != nil {
-			log.Warn("csrf: failed to save session: ", err)
-		}
+		return nil
 	}
+	// Try to get the session from the store
+	storeSess, err := m.session.Get(c)
+	if err != nil {
+		return fmt.Errorf("csrf: failed to load session: %w", err)
+	}
+	storeSess.Delete(sessionKey)
+	if err := storeSess.Save(); err != nil {
+		log.Warn("csrf: failed to save session: ", err)
+		return fmt.Errorf("csrf: failed to save session: %w", err)
+	}
+	return nil
 }
